@@ -38,6 +38,7 @@ def name_program(nm):
         (30, [("let", a(N, one), ("bin", "+", v(N), a(N, two)), False),
               ("let", a(S, one), ("bin", "+", v(S), a(S, two)), False)]),
         (40, [("for", N, one, two, None), ("next", [N])]),
+        (45, [("for", N, one, two, None), ("for", "QA", one, two, None), ("for", "QB", one, two, None), ("next", ["QB", "QA"]), ("next", [])]),
         (50, [("read", [v(N), v(S), a(N, v(N)), a(S, v(N))])]),
         (60, [("input", None, [v(N), v(S)], False)]),
         (70, [("let", v("Q"), ("fn", "VARPTR", [v(N)]), False), ("let", v("Q"), ("fn", "VARPTR", [v(S)]), False),
@@ -76,8 +77,13 @@ def run_case(case):
             return obs
         r = identifiers(conv["out"])
         c = canon(nm).lower()
-        expected = {c, c + "$", "arr_" + c, "arr_" + c + "$", "q"}
+        expected = {c, c + "$", "arr_" + c, "arr_" + c + "$", "q", "qa", "qb"}
         if r is None:
+            procs0, perr = harness.parse_b09(conv["out"])
+            if perr and "closes FOR" in (perr.get("msg") or "") or (perr and "NEXT" in (perr.get("msg") or "")):
+                obs["counters"]["identifiers_checked"] = 1
+                obs["viols"].append({"sig": "C09/for-next/variable-mismatch", "detail": {"name": nm, "error": perr, "source": text[:400]}})
+                return obs
             if canon(nm) not in B09_RESERVED2:
                 obs["nontrivial"] = False
                 obs["counters"]["unparseable_output"] = 1
@@ -90,7 +96,7 @@ def run_case(case):
                              if not (ln.lower().startswith(("type ", "dim display", "dim play", "dim erno", "play.", "erno", "base ")) or "_ecb_start" in ln))
             body = re.sub(r'"[^"]*"', '""', body)
             toks = set(t.lower() for t in re.findall(r"[A-Za-z_][A-Za-z0-9_]*\$?", body))
-            ids = {t for t in toks if t.startswith(c) or t.startswith("arr_" + c)} | {"q"}
+            ids = {t for t in toks if t.startswith(c) or t.startswith("arr_" + c)} | {"q", "qa", "qb"}
             ids = {t for t in ids if t in expected or len(t.rstrip("$").replace("arr_", "")) <= 4}
             obs["counters"]["lexical_identity_checks"] = 1
         else:
